@@ -172,6 +172,11 @@ def run(ctx):
         adds = [n for n in nodes if isinstance(n, ast.Call) and norm(n) == f"{R.names}.add({F})"]
         regs = [n for n in nodes if isinstance(n, ast.Assign) and norm(n.targets[0]) == f"{R.named}[{F}]"]
         stores = [n for n in nodes if isinstance(n, ast.Assign) and norm(n) == f"{R.parsed}['name'] = {F}"]
+        # ... and under its full name only: an entry under another key (an alias, the simple name) answers references the
+        # naming rules do not let resolve to this type, and can replace the entry of another type
+        others = [n for n in nodes if isinstance(n, ast.Assign) and any(isinstance(t, ast.Subscript) and norm(t.value) == R.named and norm(t) != f"{R.named}[{F}]" for t in n.targets)]
+        others += [n for n in nodes if isinstance(n, ast.Call) and isinstance(n.func, ast.Attribute) and norm(n.func.value) == R.named and n.func.attr in ("update", "setdefault", "__setitem__")]
+        ctx.check("C11.R2", f"{kind} arm: the definition is registered under its full name only", not others, ps.where(others[0]) if others else ps.where(arm), f"_parse_schema {kind} arm: {norm(others[0])[:80]}" if others else "", "the name table gets an entry under a key that is not the type's full name")
         for lst, why in ((redef, "a name defined twice raises SchemaParseException"), (adds, "the name is recorded for the redefinition check"), (regs, "the definition is registered in the name table"), (stores, "the parsed type carries its full name")):
             ctx.check("C11.R2", f"{kind} arm: {why}", bool(lst), ps.where(arm), f"_parse_schema {kind} arm lacks: {why}", f"sibling arms of the named types must all do this step; the {kind} arm does not")
         if redef and adds and regs:
